@@ -79,12 +79,27 @@ def quick_spread(rng) -> list[str]:
 
 
 def cpl_mode() -> str:
-    """does the tree carry the identity-closure fix?  (a=b finished: is b=a true)"""
+    """which candidate fixes does the tree under test carry?  `<onepass|closure>[+s][+a]`
+    closure: a=b finished makes b=a true (fix_C08_1); +s: the world added by the serial access gets
+    a frame (fix_C08_2); +a: unassigned tuples are exported in the anti-extension when the
+    unassigned value is false-containing (fix_C20_1)"""
     L = registry('CFOL')
     m = L.Model()
     m.set_predicated_value(ID((CA, CB)), 'T')
     m.finish()
-    return 'closure' if str(m.value_of(ID((CB, CA)))) == 'T' else 'onepass'
+    mode = 'closure' if str(m.value_of(ID((CB, CA)))) == 'T' else 'onepass'
+    m = registry('D').Model()
+    m.set_atomic_value(A0, 'T')
+    m.finish()
+    if 1 in m.frames:
+        mode += '+s'
+    m = registry('LP').Model()
+    m.set_predicated_value(PF((CA,)), 'T')
+    m.set_predicated_value(PG((CB,)), 'T')
+    m.finish()
+    if 'c.1.0' in data_dump(m).split('pr=')[1].split(' ')[0].split('-')[1]:
+        mode += '+a'
+    return mode
 
 
 # ---------------------------------------------------------------------------
@@ -510,6 +525,10 @@ def export_oracle(m, logic_name: str) -> list[tuple[str, str, dict]]:
             if ins != sorted(set(ins)):
                 out.append((f'sorted:{sect.lower()}', f'world {w}: {sect} not sorted', dict(listed=[str(x) for x in ins])))
             for e in fd[sect]['values']:
+                if sect == 'Opaques' and not m.is_sentence_opaque(e['input']):
+                    # set_opaque_value() was called on a sentence the logic interprets (the API does not
+                    # check): exported, never consulted by value_of — outside the property (see notes)
+                    continue
                 got = eval_real(m, e['input'], w)
                 if got != str(e['output']):
                     out.append((f'{sect.lower()}:value', f"world {w}: {e['input']} listed as {e['output']} but evaluates to {got}",
@@ -633,7 +652,7 @@ def run_program(logic_name: str, prog: list, sents: list, mode: str) -> dict:
     res = dict(logic=logic_name, outcomes=outs, finished=bool(m.finished), model=m, before_R=before_R,
                prog=[op_text(o) for o in prog], ops=[enc_op(o) for o in prog], after_R=after_R)
     segs = [enc_op(o) for o in prog]
-    if hint and mode == 'onepass' and L.Meta.values.__name__ == 'ValueCPL':
+    if hint and mode.startswith('onepass') and L.Meta.values.__name__ == 'ValueCPL':
         segs = hint + segs
     queries = []
     if m.finished and finished_ok:
